@@ -30,6 +30,20 @@ for var in ("accumuDistance", "accumuTotalCycles", "accumuAccumulatedPower"):
     known("C08", "C08-R1-global-write", "fit.%s@%s" % (var, RM), w, wit)
     known("C09", "C09-R1-shared-write", "fit.%s@%s" % (var, RM), w + " (data race between concurrent Decode calls)", wit)
 
+# C18 view of the same accumulators: never reset, so accumulation is not per file (D11), two of them are
+# built as zero values with mask 0 (D12), and the 12-bit distance loses its top nibble (D13).
+for var in ("accumuDistance", "accumuTotalCycles", "accumuAccumulatedPower"):
+    known("C18", "C18-R3-accumulator-scope", "fit.%s" % var,
+          "accumulator %s is a package-level variable that is never reset: accumulated distance/total_cycles/accumulated_power continue across files decoded in one process instead of starting with each file" % var,
+          "decode two activity files whose records carry the compressed source field one after the other: the second file's first accumulated value continues from the first file's last")
+for var in ("accumuTotalCycles", "accumuAccumulatedPower"):
+    known("C18", "C18-R3-accumulator-width", "%s/fit.%s" % (RM, var),
+          "%s is created with new(uint32Accumulator): mask is 0, every delta is masked to 0, so total_cycles / accumulated_power derived from cycles / compressed_accumulated_power are always 0 (generator emits new(...) for full-width components)" % var,
+          "a record stream with cycles = 1, 2, 3: RecordMsg.TotalCycles is 0 in every record")
+known("C18", "C18-R2-narrow-shift", "RecordMsg.expandComponents/uint32(x.CompressedSpeedDistance[2]<<4)",
+      "uint32(x.CompressedSpeedDistance[2]<<4) shifts the uint8 before widening: the top nibble of the 12-bit compressed distance is lost",
+      "compressed_speed_distance bytes {0x00, 0x00, 0xF0}: the distance component should be 0xF00 (raw), the expression yields 0x00")
+
 # ---- repaired defects -------------------------------------------------------------------
 fixed("C08", "7a182db", "encodeFile emitted the definition of a message group in map iteration order (range mfields without sort): identical Files encoded to different bytes",
       "C08-R3-map-order", "*encoder.encodeFile/range-mfields#0")
@@ -48,6 +62,9 @@ fixed("C13", "58857ef", "parseFileIdMsg: the header test before the file_id data
 
 fixed("C12", "3737ee0", "parseTimeStamp stored a local_date_time value into d.timestamp when no reference existed, without updating lastTimeOffset: a local wall-clock reading became the UTC reference of following compressed-timestamp records and local fields",
       "C12-R2-who-rebases", "parseTimeStamp/timestamp-store-1")
+
+fixed("C18", "15f6c57", "SegmentFile.add stored SegmentLapMsg without calling expandComponents (ActivityFile does): enhanced speed/altitude of a segment file's lap stayed invalid",
+      "C18-R1-expansion-called", "SegmentFile/SegmentLapMsg")
 
 json.dump({
     "comment": "Genuine defects of tormoder/fit. status=known: recorded, not repaired (reason in DESIGN.md section 1); the check prints KNOWN-FINDING for exactly that (property, rule, key). status=fixed: repaired by the named fix: commit in /repo; suppresses nothing. This file is never written at run time.",
